@@ -12,6 +12,43 @@ TOI = "sender::toiallocator::Toi"
 FD = "sender::filedesc::FileDesc"
 
 
+def _masked_last(sl, fl, e, bb, depth):
+    """None when the value is width-masked as its last operation, else a description of the offending form"""
+    from ..cfg import strip_ref
+    while e[0] in ("ref", "deref") or (e[0] == "cast" and e[3] == "IntToInt" and e[1] == "u128"):
+        e = e[1] if e[0] != "cast" else e[2]
+    if e[0] == "call" and e[1].endswith("::to_max_length"):
+        return None
+    if e[0] == "const" and e[2] == 1:
+        return None
+    if e[0] in ("var", "tmp") and not e[2] and depth > 0:
+        name = e[1]
+        defs = [(ex_, b_) for (pj_, ex_, b_) in sl.var_defs().get(name, []) if pj_ == ""]
+        if not defs:
+            return "`%s`, whose origin is unknown" % show(e, 40)
+        dbs = set(b_ for _e, b_ in defs)
+        bad = None
+        for (ex_, b_) in defs:
+            # does this definition reach the use without being overwritten by another one?
+            if b_ != bb:
+                ok_, _w = fl.must_pass(b_, [bb], lambda n, b_=b_: n[0] == "b" and n[1] in dbs and n[1] != b_ and n[1] != bb)
+                if ok_:
+                    continue
+            if ex_[0] == "bin" and ex_[1].startswith("Add") and show(ex_[3]) == "1" and show(ex_[2]) == name:
+                zero = any(a_[0] == "eq" and t_ and {show(a_[1]), show(a_[2])} & {name} and ({show(a_[1]), show(a_[2])} & {"0", "lct::TOI_FDT"} or
+                           any(z_[0] == "const" and z_[2] == 0 for z_ in (a_[1], a_[2]))) for (a_, t_) in fl.facts_at(b_))
+                if zero:
+                    continue
+                bad = "`%s` not under a test `%s == 0`" % (show(ex_, 40), name)
+                break
+            w_ = _masked_last(sl, fl, ex_, b_, depth - 1)
+            if w_ is not None:
+                bad = w_
+                break
+        return bad
+    return "`%s`" % show(e, 80)
+
+
 def run(ctx):
     prog = ctx.prog
     ctx.explanation = (
@@ -59,13 +96,15 @@ def run(ctx):
                 r1.violation("%s &mut ToiAllocatorInternal.toi" % a["func"].path, "cursor mutably borrowed", loc(a["sp"]))
             continue
         sl = Slicer(a["func"].body)
+        fl_ = Flow(a["func"].body)
         v = a["value"]
-        srcs = sl.sources(v)
         key = "%s cursor = %s" % (a["func"].path.split("::")[-1], show(v, 50))
-        if any(z.endswith("to_max_length") for z in srcs if z.startswith("call:")) or (v[0] == "const" and v[2] == 1):
-            r1.ok(key, "masked by to_max_length", loc(a["sp"]))
+        why = _masked_last(sl, fl_, v, a["bb"], 3)
+        if why is None:
+            r1.ok(key, "to_max_length is the last operation applied (or the constant 1 / +1 of a masked 0)", loc(a["sp"]))
         else:
-            r1.violation(key, "cursor written with a value that does not pass through to_max_length", loc(a["sp"]))
+            r1.violation(key, "the cursor is written with %s: the value handed out next may not fit the configured TOI width (to_max_length must be the "
+                              "last operation; only the constant 1 and the +1 of a value just tested to be 0 are exempt)" % why, loc(a["sp"]))
 
     # ---- R2 never zero ----------------------------------------------------------------------------
     r2 = ctx.rule("C15.R2", "at every normal exit of ToiAllocatorInternal::new and ::allocate the cursor excludes 0 (TOI 0 is the FDT)", "E4")
@@ -246,3 +285,7 @@ def run(ctx):
     from . import c06
     c06.lct_first_word_rule(ctx, r6)
     r6.floor(10, "first-word / length facts")
+    r7 = ctx.rule("C15.R7", "the width of the TOI field is chosen so that no set bit of the allocated TOI is dropped: nb_bytes_128 returns the smallest "
+                            "even byte count that holds every set bit, and O / H are derived from that count (shared with C06.R9)",
+                  "arm table + E5 bit provenance + sign table")
+    c06.width_class_rule(ctx, r7)
